@@ -132,9 +132,11 @@ class GEngine(object):
                 self.goldens[j.id] = g1
                 self.poisons.append(j.id)
                 rejected += 1
-            else:
+            elif not is_poison:
                 # succeeds under one environment and fails under the other
                 self.golden_violations.append((j, g1, g2))
+            # (a deliberately invalid job that fails in one environment only is simply not used:
+            # how invalid input is rejected is C17's business)
         # vacuity guard: plain upstream corpus jobs that do not even run in a fresh process
         plain = [j for j in allj if j.meta.get("source") == "corpus"]
         failed = [j.id for j in plain if j.id not in self.targets]
